@@ -146,6 +146,45 @@ pub fn conform_bytes(ctx: &Ctx, family: &str, case: &dyn Fn() -> String, bytes: 
         viol(sig, d);
         ok = false;
     }
+    // the same images through another call order on a second, fresh load: cel images first (from the
+    // last cell to the first), then the frames from the last to the first.  Model-free: compared with
+    // the first walk, which has just been compared with the prediction.
+    if ok && want.frame_images && want.cel_images && o.cels.len() <= 64 && o.frames.len() <= 16 && bytes.len() <= 65536 {
+        if let Loaded::Ok(f2) = load(bytes) {
+            let nl = o.num_layers;
+            let mut p2 = Vec::new();
+            let r = guarded(&mut p2, || "second walk".into(), || {
+                for (k, c) in o.cels.iter().enumerate().rev() {
+                    let (fr, l) = (k as u32 / nl.max(1), k as u32 % nl.max(1));
+                    if let Some(img) = &c.image {
+                        if observe::img_of(f2.cel(fr, l).image()) != *img {
+                            return Some(format!("cel({},{}).image() as the first calls on a fresh load differs from the same call after the frames were rendered", fr, l));
+                        }
+                    }
+                }
+                for (k, fo) in o.frames.iter().enumerate().rev() {
+                    if let Some(img) = &fo.image {
+                        if observe::img_of(f2.frame(k as u32).image()) != *img {
+                            return Some(format!("frame({}).image() after the cel images and the later frames differs from the same call in a front-to-back walk", k));
+                        }
+                    }
+                }
+                None
+            });
+            ctx.eval_n(0, o.cels.len() as u64 + o.frames.len() as u64);
+            match r {
+                Some(None) => {}
+                Some(Some(msg)) => {
+                    viol("call-order-dependent".into(), msg);
+                    ok = false;
+                }
+                None => {
+                    viol(format!("accessor-panic:second-walk:{}", sig_of(&p2[0].1)), format!("panic in the second (reverse-order) walk: {}", p2[0].1));
+                    ok = false;
+                }
+            }
+        }
+    }
     Conf { obs: Some(o), ok }
 }
 
